@@ -2,6 +2,7 @@ import Proofs.AlignSingleRun
 import Proofs.EditsInfer
 import Proofs.EditsSingleRun
 import Proofs.EditsSubhunk
+import Proofs.EmphPaint
 /-!
 C06 — within-line emphasis marks exactly what changed between paired lines.
 
@@ -367,5 +368,221 @@ theorem homolog_flags (al : List (Option Nat × Option Nat)) :
 
 example : makeLinesHaveHomolog [(none, some 0), (some 0, some 1), (some 1, none)]
     = ([true, false], [false, true]) := by decide
+
+end C06
+
+/-! ## emphasis as it is painted: `parse_styles`, `Config`, `update_diff_style_sections`
+
+`infer_edits` annotates sections with *styles*; what makes a section "emphasised" on the screen is decided later:
+`Painter::update_diff_style_sections` repaints, on every line that has a partner, each section whose style does
+not carry the flag `is_emph` with the non-emph style, and `is_emph` is set by `parse_styles()` on the two
+within-line styles. The theorems below are about the model `DeltaModel/EmphPaint.lean`, whose statement list
+(`parse_styles()`), key tables (`Config`), call sites and branch guards (`update_diff_style_sections`) are
+regenerated from the source (`Generated/EmphPaint.lean`). -/
+
+namespace C06
+open EmphPaint Generated.EmphPaint
+
+/-- **Every way a style can be supplied.** `supplied` gives, for every key, the option value as
+`style_from_str` sees it — a style string or a reference (to another option or to a user-defined name of the
+`[delta]` section, `git`), from the command line, the main section, a feature or a default alike. When
+`parse_styles()` succeeds, the style of key `k` carries `is_emph` iff `k` is `minus-emph-style` or
+`plus-emph-style`, and what it looks like is what the chain of references from `k` ends in. -/
+theorem emph_flag_every_supply (supplied : List (String × Supplied)) (git : String → Option Nat)
+    (styles : Resolved) (h : parseStyles supplied git = .ok styles) (k : String) (s : PStyle)
+    (hk : styles.lookup k = some s) :
+    s.isEmph = (k == "minus-emph-style" || k == "plus-emph-style") ∧
+    ∃ s0, follow (edgesOf supplied) git (keysOf (edgesOf supplied)) k = .ok s0 ∧ s.look = s0.look :=
+  parseStyles_flag supplied git styles h k s hk
+
+/-- `parse_styles()` does not panic: when the references resolve (no cycle, every user-defined name found) and
+the two within-line keys are in the map, both `unwrap_or_else(panic)` find their entry. -/
+theorem emph_flag_no_panic (supplied : List (String × Supplied)) (git : String → Option Nat) (r0 : Resolved)
+    (hr : resolve (edgesOf supplied) git = .ok r0)
+    (h1 : "minus-emph-style" ∈ keysOf (edgesOf supplied)) (h2 : "plus-emph-style" ∈ keysOf (edgesOf supplied)) :
+    ∃ styles, parseStyles supplied git = .ok styles := by
+  have hp : AllPlain (edgesOf supplied) := allPlain_makeAll supplied _ [] allPlain_nil
+  have hkeys := (resolve_spec _ git hp r0 hr).1
+  have key : ∀ k, k ∈ keysOf (edgesOf supplied) → (r0.lookup k).isSome = true := by
+    intro k hk
+    rw [← hkeys] at hk
+    obtain ⟨e, he, rfl⟩ := List.mem_map.mp hk
+    exact lookup_isSome_of_mem r0 e.1 e.2 he
+  exact ⟨_, parseStyles_ok supplied git r0 hr (key _ h1) (key _ h2)⟩
+
+/-- The resolution loop of the model never runs out of fuel (a reference chain either ends or revisits a key,
+which is delta's "Your delta styles form a cycle"). -/
+theorem resolution_fuel_suffices (edges : StyleMap) (git : String → Option Nat) (unvisited : List String)
+    (node : String) : follow edges git unvisited node ≠ .error "model: out of fuel" :=
+  follow_never_out_of_fuel edges git unvisited node
+
+private def supRef : List (String × Supplied) :=
+  [("minus-style", .direct 1), ("minus-emph-style", .ref "removed-word-style"), ("minus-non-emph-style", .ref "minus-style"),
+   ("plus-style", .direct 4), ("plus-emph-style", .ref "inline-hint-style"), ("plus-non-emph-style", .direct 6),
+   ("zero-style", .direct 7), ("whitespace-error-style", .direct 9), ("inline-hint-style", .ref "added-word-style")]
+private def gitRef : String → Option Nat := fun k =>
+  if k = "removed-word-style" then some 124 else if k = "added-word-style" then some 28 else none
+
+-- a reference to a user-defined name, and a chain option -> option -> user-defined name: the flag is set, the
+-- look is the referent's; the referent itself (`inline-hint-style`) does not get the flag
+example : (parseStyles supRef gitRef).map (fun r => (r.lookup "minus-emph-style", r.lookup "plus-emph-style",
+      r.lookup "minus-non-emph-style", r.lookup "inline-hint-style")) =
+    .ok (some ⟨124, true⟩, some ⟨28, true⟩, some ⟨1, false⟩, some ⟨28, false⟩) := by rfl
+example : "minus-emph-style" ∈ keysOf (edgesOf supRef) ∧ "plus-emph-style" ∈ keysOf (edgesOf supRef) := by decide
+-- a cycle is delta's fatal error, not a panic and not a style
+example : parseStyles [("minus-emph-style", .ref "plus-emph-style"), ("plus-emph-style", .ref "minus-emph-style")]
+    (fun _ => none) = .error "fatal: Your delta styles form a cycle" := by rfl
+
+/-- **The substitution rule.** `update_diff_style_sections` cannot panic, keeps the number of sections and
+their texts, and paints the section at any place of the line by `paintRule`: a section with `is_emph` keeps its
+style (unless it lies in the trailing whitespace of an added line: whitespace-error style), a section without
+it gets the non-emph style when one is given and the line has a partner. -/
+theorem painted_section_rule (ws ne : Option PStyle) (homolog : Bool) (pre : List PSec) (s : PSec) (post : List PSec) :
+    ∃ opre o opost, updateLine ws ne homolog (pre ++ s :: post) = .ok (opre ++ o :: opost) ∧
+      opre.length = pre.length ∧ opost.length = post.length ∧ o.blank = s.blank ∧
+      paintRule ws ne (shouldUpdateNonEmph ne.isSome homolog) (moreThanOneStyle (pre ++ s :: post))
+        (wsErrInitial ws.isSome && post.all (·.blank) && s.blank) s = some o.style := by
+  obtain ⟨out, ho⟩ := updateLine_total ws ne homolog (pre ++ s :: post)
+  obtain ⟨opre, o, opost, rfl, h1, h2, h3, h4⟩ := updateLine_at ws ne homolog pre s post out ho
+  exact ⟨opre, o, opost, ho, h1, h2, h3, h4⟩
+
+/-- Removed lines (no whitespace-error style): a section is painted with `is_emph` iff it was annotated with it,
+such a section keeps its style, and the others get the non-emph style exactly when the line has a partner and a
+non-emph style is given. -/
+theorem painted_emphasis_minus (ne : Option PStyle) (hne : ∀ n, ne = some n → n.isEmph = false) (homolog : Bool)
+    (pre : List PSec) (s : PSec) (post : List PSec) :
+    ∃ opre o opost, updateLine none ne homolog (pre ++ s :: post) = .ok (opre ++ o :: opost) ∧
+      opre.length = pre.length ∧ opost.length = post.length ∧
+      o.style.isEmph = s.style.isEmph ∧ (s.style.isEmph = true → o.style = s.style) ∧
+      (s.style.isEmph = false → o.style = if homolog then ne.getD s.style else s.style) := by
+  obtain ⟨opre, o, opost, ho, h1, h2, _, h4⟩ := painted_section_rule none ne homolog pre s post
+  refine ⟨opre, o, opost, ho, h1, h2, ?_⟩
+  unfold paintRule at h4
+  cases he : s.style.isEmph <;> cases homolog <;> cases ne <;>
+    simp_all [wsErrInitial, shouldUpdateNonEmph]
+
+/-- Added lines: emphasis is never invented, an emphasised section keeps its style, and an annotated section
+is painted without `is_emph` only in the trailing whitespace of the line (it and every later section blank),
+where it gets the whitespace-error style. -/
+theorem painted_emphasis_plus (w : PStyle) (hw : w.isEmph = false) (ne : Option PStyle)
+    (hne : ∀ n, ne = some n → n.isEmph = false) (homolog : Bool) (pre : List PSec) (s : PSec) (post : List PSec) :
+    ∃ opre o opost, updateLine (some w) ne homolog (pre ++ s :: post) = .ok (opre ++ o :: opost) ∧
+      opre.length = pre.length ∧ opost.length = post.length ∧
+      (o.style.isEmph = true → s.style.isEmph = true ∧ o.style = s.style) ∧
+      (s.style.isEmph = true → o.style = s.style ∨
+        (o.style = w ∧ s.blank = true ∧ post.all (·.blank) = true)) := by
+  obtain ⟨opre, o, opost, ho, h1, h2, _, h4⟩ := painted_section_rule (some w) ne homolog pre s post
+  refine ⟨opre, o, opost, ho, h1, h2, ?_⟩
+  obtain ⟨r1, r2⟩ := paintRule_emph _ _ _ _ _ _ _ (by intro w' hw'; injection hw' with hw'; subst hw'; exact hw) hne h4
+  refine ⟨r1, fun he => ?_⟩
+  rcases r2 he with r | ⟨r, rw'⟩
+  · exact .inl r
+  · injection rw' with rw'
+    simp only [Bool.and_eq_true] at r
+    exact .inr ⟨rw'.symm, r.2, r.1.2⟩
+
+-- a paired added line `keep CHANGED keep <trailing blank CHANGED>`: styles 4 (plus), 5 (emph), non-emph 6, whitespace error 9
+example : updateLine (some ⟨9, false⟩) (some ⟨6, false⟩) true
+    [⟨⟨4, false⟩, false⟩, ⟨⟨5, true⟩, false⟩, ⟨⟨4, false⟩, false⟩, ⟨⟨5, true⟩, true⟩] =
+    .ok [⟨⟨6, false⟩, false⟩, ⟨⟨5, true⟩, false⟩, ⟨⟨6, false⟩, false⟩, ⟨⟨9, false⟩, true⟩] := by rfl
+-- the same sections on a line without partner: nothing is substituted (the whitespace error is still marked)
+example : updateLine (some ⟨9, false⟩) (some ⟨6, false⟩) false
+    [⟨⟨4, false⟩, false⟩, ⟨⟨5, true⟩, false⟩, ⟨⟨4, false⟩, false⟩, ⟨⟨5, true⟩, true⟩] =
+    .ok [⟨⟨4, false⟩, false⟩, ⟨⟨5, true⟩, false⟩, ⟨⟨4, false⟩, false⟩, ⟨⟨9, false⟩, true⟩] := by rfl
+
+/-- **From the options to the screen.** For every way the styles are supplied (`supplied`, `git`) on which
+delta starts, for a removed or an added line, with or without partner, annotated by `infer_edits` into
+sections (`(changed?, blank?)` per section): the section at any place of the painted line carries `is_emph`
+only if it was annotated as changed, and a section annotated as changed is painted with the resolved
+within-line style of its side (which carries the flag) — except in the trailing whitespace of an added line.
+So the emphasised ranges displayed are exactly the annotated ones, give or take trailing whitespace. -/
+theorem emphasis_exact_every_supply (supplied : List (String × Supplied)) (git : String → Option Nat) (side : Side)
+    (homolog : Bool) (pre : List (Bool × Bool)) (e b : Bool) (post : List (Bool × Bool)) (out : List PSec)
+    (h : paintedLine supplied git side homolog (pre ++ (e, b) :: post) = .ok out) :
+    ∃ styles es opre o opost, parseStyles supplied git = .ok styles ∧
+      cfgField styles (emphField side) = .ok es ∧ es.isEmph = true ∧
+      out = opre ++ o :: opost ∧ opre.length = pre.length ∧ opost.length = post.length ∧
+      (o.style.isEmph = true → e = true ∧ o.style = es) ∧
+      (e = true → o.style = es ∨ (side = .plus ∧ b = true ∧ post.all (·.2) = true)) := by
+  unfold paintedLine at h
+  split at h
+  · cases h
+  · rename_i styles hs
+    split at h
+    · cases h
+    · rename_i c hc
+      split at h
+      · cases h
+      · rename_i ls hls
+        split at h
+        · cases h
+        · rename_i es hes
+          split at h
+          · cases h
+          · rename_i ws hws
+            split at h
+            · cases h
+            · rename_i ne hne
+              -- flags of the four styles involved
+              have hesE : es.isEmph = true := by
+                obtain ⟨key, hk, he⟩ := cfgField_flag supplied git styles hs _ es hes
+                have := emphField_key side
+                rw [hk] at this
+                simpa [he] using this
+              have hlsE : ls.isEmph = false := by
+                obtain ⟨key, hk, he⟩ := cfgField_flag supplied git styles hs _ ls hls
+                have := lineField_key side
+                rw [hk] at this
+                simpa [he] using this
+              have hcm : c ∈ updateCalls := List.mem_of_find?_eq_some hc
+              have hcp := List.all_eq_true.mp updateCalls_plain c hcm
+              simp only [Bool.and_eq_true] at hcp
+              have hneE : ∀ n, ne = some n → n.isEmph = false := fun n hn =>
+                plain_of_field supplied git styles hs _ n hcp.1 (neArg_spec styles c ne hne n hn)
+              have hwsE : ∀ w, ws = some w → w.isEmph = false := by
+                intro w hw
+                obtain ⟨f, hf, hfw⟩ := (wsArg_spec styles c ws hws).2 w hw
+                rw [hf] at hcp
+                exact plain_of_field supplied git styles hs f w (by simpa using hcp.2) hfw
+              have hwsM : side = .minus → ws = none := by
+                intro hsd
+                subst hsd
+                have := minus_call_ws
+                rw [hc] at this
+                exact (wsArg_spec styles c ws hws).1 (by simpa using this)
+              rw [List.map_append, List.map_cons] at h
+              obtain ⟨opre, o, opost, rfl, h1, h2, h3, h4⟩ := updateLine_at ws ne homolog _ _ _ out h
+              refine ⟨styles, es, opre, o, opost, hs, hes, hesE, rfl, by simpa using h1, by simpa using h2, ?_⟩
+              obtain ⟨r1, r2⟩ := paintRule_emph _ _ _ _ _ _ _ hwsE hneE h4
+              simp only at r1 r2
+              constructor
+              · intro ho
+                obtain ⟨q1, q2⟩ := r1 ho
+                cases e
+                · simp [hlsE] at q1
+                · exact ⟨rfl, by simpa using q2⟩
+              · intro he
+                subst he
+                rcases r2 (by simpa using hesE) with r | ⟨r, rw'⟩
+                · exact .inl (by simpa using r)
+                · right
+                  simp only [Bool.and_eq_true, List.all_map] at r
+                  refine ⟨?_, r.2, ?_⟩
+                  · cases side with
+                    | plus => rfl
+                    | minus =>
+                      have := hwsM rfl
+                      subst this
+                      cases rw'
+                  · have := r.1.2
+                    simpa [Function.comp_def] using this
+
+-- the within-line styles given as references (`supRef`): a paired removed line `keep CHANGED keep` and a paired
+-- added line `keep CHANGED <trailing blank>` are painted non-emph (1: `minus-non-emph-style = minus-style`; 6) /
+-- emphasised with the referents' looks (124; 28) / whitespace-error (9)
+example : paintedLine supRef gitRef .minus true [(false, false), (true, false), (false, false)] =
+    .ok [⟨⟨1, false⟩, false⟩, ⟨⟨124, true⟩, false⟩, ⟨⟨1, false⟩, false⟩] := by rfl
+example : paintedLine supRef gitRef .plus true [(false, false), (true, false), (false, true)] =
+    .ok [⟨⟨6, false⟩, false⟩, ⟨⟨28, true⟩, false⟩, ⟨⟨9, false⟩, true⟩] := by rfl
 
 end C06
